@@ -77,6 +77,7 @@ def _dearlynum(line):
 def run_model(lines, jobs=None):
     # 'NF ' asks the implementation runner to spell integer parameters as integral floats; the model
     # has one spelling
+    lines = [l[3:] if l.startswith('VO ') else l for l in lines]      # 'VO ': the variable given as an object; one spelling in the model
     lines = [l[4:] if l.startswith('MSG ') else l for l in lines]
     lines = [_dearlynum(l) if l.startswith('DEARLYNUM ') else l for l in lines]
     lines = [l[3:] if l.startswith('NF ') else l for l in lines]
